@@ -181,7 +181,15 @@ PROPS["C08"] = {
                 "directory index pages; Compress with and without Accept-Encoding; missing files; an expiring file cache; random interleavings over "
                 "shared engines / cached files / pooled readers; ~50 listed + random traversal paths against the StaticFS routes. Direct calls: bytesconv.ParseUint (short strings "
                 "exhaustively, 64-bit boundary values, random 17-22 digit strings), app.ParseByteRange (same forms x lengths 0..12 and 14 huge lengths), "
-                "ResponseHeader.SetContentRange.",
+                "ResponseHeader.SetContentRange. Cache sequences (op fscache, harness/c08cache.go): fsHandler.handleRequest called directly, "
+                "265 (quick) / 4545 (thorough) scenarios of 4..20 steps over 1..3 names: files of 0..20000 bytes (8191/8192/8193 around "
+                "MaxSmallFileSize) or a directory with/without index.html; GET/HEAD, Range (16 forms), If-Modified-Since; responses HELD (body "
+                "stream neither read nor closed) while further requests for the same name arrive; the file removed / replaced by another file "
+                "/ by a directory in between; CacheDuration (40 ms) passing and the cleaner running (observed through sentinel files); every "
+                "held body finally read and closed. Directed family: {small,big} x {in flight, 304, pooled, two in flight, HEAD} x {nothing, "
+                "removed, replaced by directory, by file, by directory with index, expired, removed+expired} x 4 follow-ups. Observed after "
+                "every step: status, Content-Length, Content-Range, body bytes (length + FNV-64), number of open descriptors below the scenario "
+                "directory (/proc/self/fd), ff.readersCount and len(ff.bigFiles) of the file behind every held response (reflection).",
         "exhaustive_note": "lengths x range forms x method x AcceptByteRange are enumerated completely up to the stated bounds; the rest is sampled",
         "level_text": "ParseUint (overflow test included), ParseByteRange, AppendUint, SetContentRange, both UpdateByteRange implementations and the "
                       "range part of fsHandler.handleRequest are modelled in Lean function by function (slices and indexes checked, AppendUint's panic "
@@ -192,7 +200,14 @@ PROPS["C08"] = {
                       "that slice, HEAD = GET headers without body, small/big/dir-index readers agree. Former defect witnesses (bytes=-1 on an empty "
                       "file, bytes=-0, the 20-digit wrap-around) are regression examples and replayed against the Go code on every run. Statement "
                       "skeletons of the seven Go functions are regenerated from source and pinned by model_matches_gen.",
-        "level_note": "Partial: open/stat/cache/ref-counts, compression, index page generation, If-Modified-Since and the OS are exercised by the "
+        "level_note": "The file cache and the reader reference counts are a Lean state machine (Model/FsCache.lean: every fsFile with count, reader "
+                      "pool, open/cached/pending/expired flags; live readers; the tree) mirroring handleRequest / NewReader / bigFileReader / both "
+                      "Close / decReadersCount (its panic is a fault outcome) / cleanCache statement by statement; proved by induction over EVERY "
+                      "op sequence: no_refcount_panic, readers_count_is_live_readers, count_never_negative, file_closed_only_when_unreferenced, "
+                      "live_reader_file_open, failed_open_leaves_counts_unchanged, pooled_reader_not_live, reader_in_one_place; the list of count/Release/cache-map sites of ALL functions of fs.go "
+                      "is regenerated and pinned (model_matches_gen_refcounts). Requests are sequential in the model (cacheLock). "
+                      "Known finding C08-reopen-by-name (bigFileReader re-opens by name). "
+                      "Partial: compression, index page generation and the OS are exercised by the "
                       "correspondence only; path containment is C07's theorem and is only exercised here, for StaticFS routes (ctx.File has no root). "
                       "Trusted: Lean kernel, gen/c08.go (go/ast statement skeletons), harness/driver.",
         "assumptions": ["file length is a Go int (< 2^63)",
